@@ -279,6 +279,99 @@ def private_member_probe(res):
                                      "input": {"private_member": [ann, src]}})
 
 
+# ---- recursive aliases / a NewType that closes a cycle: the result conforms at EVERY depth (keys, arity, member classes), or the call raises
+RECA_SRC = """
+from __future__ import annotations
+import dataclasses, typing
+type Rec = dict[str, Rec | int]
+type Chain = tuple[int, Chain | None]
+type Rows = list[Rows] | int
+@dataclasses.dataclass
+class Node:
+    v: int
+    kids: Kids
+Kids = typing.NewType("Kids", typing.List[Node])
+@dataclasses.dataclass
+class Holder:
+    rec: Rec
+    chain: typing.Optional[Chain] = None
+"""
+RECA_TARGETS = ["Rec", "Chain", "Rows", "Kids", "Node", "Holder", "list[Rec]", "typing.Optional[Chain]", "dict[str, Chain]", "tuple[Rec, Rows]"]
+RECA_INPUTS = ["{'a': {'b': {'c': '1'}}, 'd': '2'}", "'{\"a\": {\"b\": {\"c\": \"1\"}}, \"d\": \"2\"}'", "{'a': {'b': {3: 1}}}", "{'a': {'b': {'c': 'x'}}}",
+               "{'a': {'b': {'c': [1]}}}", "['1', ['2', ['3', None]]]", "[1, [2, [3]]]", "[1, [2, [3, None, 4]]]", "('1', ('2', ('3', ('4', None))))",
+               "[['1', ['2', [['3']]]], '4']", "[[[['x']]]]", "'7'", "[{'v': '1', 'kids': [{'v': '2', 'kids': [{'v': '3', 'kids': []}]}]}]",
+               "[{'v': '1', 'kids': [{'v': '2', 'kids': [{'v': 'x', 'kids': []}]}]}]", "{'v': '1', 'kids': [{'v': '2', 'kids': [{'v': '3', 'kids': ['junk']}]}]}",
+               "{'v': '1', 'kids': [{'v': '2', 'kids': [{'v': '3', 'kids': []}]}]}",
+               "{'rec': {'a': {'b': {'c': '1'}}}, 'chain': ['1', ['2', None]]}", "{'rec': {'a': {'b': {'c': None}}}}", "[{'a': {'b': '1'}}]",
+               "{'k': ['1', ['2', ['3', None]]]}", "[{'a': {'b': {'c': '5'}}}, [['6']]]", "None", "{}", "[]"]
+
+
+def _reca_child(ann):
+    import warnings
+    warnings.simplefilter("ignore")
+    import sys
+    import types
+    import typing
+    import typelib
+    mod = types.ModuleType("vm_c03_reca")
+    sys.modules["vm_c03_reca"] = mod
+    exec(compile(RECA_SRC, "vm_c03_reca.py", "exec", dont_inherit=True), mod.__dict__)
+    ns = dict(vars(mod))
+    t = eval(ann, ns)
+    Node, Holder = mod.Node, mod.Holder
+
+    def rec(x):
+        return type(x) is dict and all(type(k) is str and (type(v) is int or rec(v)) for k, v in x.items())
+
+    def chain(x):
+        return type(x) is tuple and len(x) == 2 and type(x[0]) is int and (x[1] is None or chain(x[1]))
+
+    def rows(x):
+        return type(x) is int or (type(x) is list and all(rows(e) for e in x))
+
+    def node(x):
+        return type(x) is Node and type(x.v) is int and kids(x.kids)
+
+    def kids(x):
+        return type(x) is list and all(node(e) for e in x)
+
+    def holder(x):
+        return type(x) is Holder and rec(x.rec) and (x.chain is None or chain(x.chain))
+    conf = {"Rec": rec, "Chain": chain, "Rows": rows, "Kids": kids, "Node": node, "Holder": holder,
+            "list[Rec]": lambda x: type(x) is list and all(rec(e) for e in x), "typing.Optional[Chain]": lambda x: x is None or chain(x),
+            "dict[str, Chain]": lambda x: type(x) is dict and all(type(k) is str and chain(v) for k, v in x.items()),
+            "tuple[Rec, Rows]": lambda x: type(x) is tuple and len(x) == 2 and rec(x[0]) and rows(x[1])}[ann]
+    out = []
+    for src in RECA_INPUTS:
+        x = eval(src)
+        try:
+            r = typelib.unmarshal(t, x)
+        except RecursionError:
+            raise
+        except Exception:  # noqa: BLE001
+            out.append([src, "raised", True])
+            continue
+        out.append([src, repr(r)[:160], bool(conf(r))])
+    return out
+
+
+def recursive_alias_probe(res):
+    from .. import iso
+    outs = iso.map_isolated(_reca_child, RECA_TARGETS, timeout=60.0)
+    for ann, o in zip(RECA_TARGETS, outs):
+        if not isinstance(o, list):
+            raise RuntimeError(f"harness: recursive-alias probe failed: {ann}: {o}")
+        if not any(got != "raised" for _, got, _ in o):
+            raise RuntimeError(f"harness: recursive-alias probe is vacuous for {ann}")
+        for src, got, ok in o:
+            res.case({"ann": ann, "val": src, "family": "recursive-alias"}, True)
+            if ok:
+                res.count("oracle:recursive-alias:" + ("rejected" if got == "raised" else "conforms"))
+            else:
+                res.failures.append({"what": f"unmarshal({ann}, {src}) returned {got}: not a value of the recursive type at some depth",
+                                     "input": {"recursive_alias": [ann, src]}})
+
+
 def explore(ctx):
     res = Result()
     res.rule = RULE
@@ -339,6 +432,7 @@ def explore(ctx):
     text_descent_probe(res)
     open_tuple_probe(res)
     private_member_probe(res)
+    recursive_alias_probe(res)
     return res
 
 
@@ -362,6 +456,12 @@ def replay(failure):
         o = iso.map_isolated(_open_child, [inp["open_tuple"][0]], timeout=60.0)[0]
         bad = [x for x in o if not x[2]] if isinstance(o, list) else o
         print(json.dumps({"annotation": inp["open_tuple"][0], "non-conforming results": bad}, indent=1))
+        return bool(bad)
+    if "recursive_alias" in inp:
+        from .. import iso
+        o = iso.map_isolated(_reca_child, [inp["recursive_alias"][0]], timeout=60.0)[0]
+        bad = [x for x in o if not x[2]] if isinstance(o, list) else o
+        print(json.dumps({"annotation": inp["recursive_alias"][0], "non-conforming results": bad}, indent=1))
         return bool(bad)
     if "private_member" in inp:
         from .. import iso
